@@ -41,6 +41,11 @@ def pool():
         ("p", C09.tagged((2,), 20, ("q0", "q1"), variant="zeroterm")),
         ("p", C09.tagged((2, 2), 30, ("q0", "q2"), variant="T")),
         ("p", s(("q1",), (), [])),
+        # infinite coefficients; boolean and narrow integer coefficients without a constant term
+        ("p", s(("q0", "q1"), (2,), [((1, 0), [float("inf"), 2.0]), ((0, 1), [1.0, -float("inf")])], "f8")),
+        ("p", s(("q1",), (), [((2,), float("inf")), ((0,), 1.0)], "f8")),
+        ("p", s(("q0", "q2"), (2,), [((1, 0), [True, False]), ((1, 1), [True, True])], "?")),
+        ("p", s(("q1",), (1,), [((3,), [100])], "i1")),
     ]
     return items
 
@@ -146,6 +151,8 @@ def one_call(R, fname, idxs, items, bshape, cfg=None):
         exp = m.map(lambda c: numpy.broadcast_to(c, bshape)) if shape_aligned else m
         if alpha(o) != exp:
             probs.append(f"output {i}: value {alpha(o)!r} != input {exp!r}")
+        elif isinstance(args[i], numpoly.ndpoly) and o.dtype != args[i].dtype:
+            probs.append(f"output {i}: coefficient dtype {o.dtype} != the input's {args[i].dtype}")
     polys = [o for o in outs if isinstance(o, numpoly.ndpoly)]
     if not probs and len(polys) == len(outs):
         if shape_aligned and any(tuple(o.shape) != tuple(bshape) for o in outs):
